@@ -61,6 +61,8 @@ func main() {
 		modeC18()
 	case "c04":
 		modeC04(*thorough)
+	case "c15live":
+		modeC15Live()
 	case "c13":
 		modeC13(*rules, *thorough)
 	case "c08":
